@@ -1301,6 +1301,190 @@ _ROUTE_FLOORS = {'quick': {'counters': {'route-par:case': 1300,
 for _tier in ('quick', 'thorough'):
     FLOORS[_tier]['counters'].update(_ROUTE_FLOORS[_tier]['counters'])
     FLOORS[_tier]['monitors'].update(_ROUTE_FLOORS[_tier]['monitors'])
+# CTOR-FLOORS (constructor spellings / argument types): 50 % of the measured minimum over VERIF_SEED 0..3 (quick) / seed 0
+# (thorough), two digits kept; measured counters only where the minimum is >= 40 (quick) / 60 (thorough); no floors on
+# library choices (ctor:map:*:accepted / refused, unlisted fields kept / dropped, warnings of use_apt_pkg=True).  The
+# enumerated (api, source form, call spelling) / mapping-type counters are floored programmatically in _enum_floors().
+_CTOR_FLOORS = {
+    'quick': {
+        'monitors': {'M.ctor': 790, 'M.ctor.fields': 570, 'M.ctor.kw': 1200, 'M.ctor.kw.mapping': 240, 'M.ctor.kw.one-shot': 610,
+                     'M.ctor.kw.re-usable': 410, 'M.ctor.map': 300, 'M.ctor.map.independent': 160,
+                     'M.ctor.map.source-unchanged': 300, 'M.ctor.mapping': 300, 'M.ctor.one-shot': 1000,
+                     'M.ctor.re-usable': 660, 'M.ctor.respell': 1400, 'M.iter': 1100, 'M.iter.count': 630},
+        'counters': {'ctor:api:ctor': 810, 'ctor:api:iter': 630, 'ctor:case': 1400, 'ctor:close:early': 240, 'ctor:close:late': 240,
+                     'ctor:ctor:call:fields+kw': 45, 'ctor:ctor:call:kw': 100, 'ctor:ctor:call:kw+all': 100,
+                     'ctor:ctor:call:kw+encoding': 100, 'ctor:ctor:call:kw+fields': 100, 'ctor:ctor:call:kw+strict':
+                     45, 'ctor:ctor:call:pos': 100, 'ctor:ctor:call:pos+encoding': 45, 'ctor:ctor:call:pos+fields':
+                     45, 'ctor:ctor:call:pos+fields-kw': 45, 'ctor:ctor:call:pos-all': 45,
+                     'ctor:ctor:config-src-class:BuildInfo:mapping': 52,
+                     'ctor:ctor:config-src-class:BuildInfo:one-shot': 49,
+                     'ctor:ctor:config-src-class:BuildInfo:re-usable': 33,
+                     'ctor:ctor:config-src-class:Changes:mapping': 52, 'ctor:ctor:config-src-class:Changes:one-shot':
+                     49, 'ctor:ctor:config-src-class:Changes:re-usable': 33, 'ctor:ctor:config-src-class:Dsc:mapping':
+                     52, 'ctor:ctor:config-src-class:Dsc:one-shot': 49, 'ctor:ctor:config-src-class:Dsc:re-usable':
+                     33, 'ctor:ctor:config-src-class:PdiffIndex:mapping': 52,
+                     'ctor:ctor:config-src-class:PdiffIndex:one-shot': 49,
+                     'ctor:ctor:config-src-class:PdiffIndex:re-usable': 33,
+                     'ctor:ctor:config-src-class:Release-apt-ftparchive:mapping': 52,
+                     'ctor:ctor:config-src-class:Release-apt-ftparchive:one-shot': 49,
+                     'ctor:ctor:config-src-class:Release-apt-ftparchive:re-usable': 33,
+                     'ctor:ctor:config-src-class:Release-dak:mapping': 52,
+                     'ctor:ctor:config-src-class:Release-dak:one-shot': 49,
+                     'ctor:ctor:config-src-class:Release-dak:re-usable': 33, 'ctor:ctor:config:BuildInfo': 130,
+                     'ctor:ctor:config:Changes': 130, 'ctor:ctor:config:Dsc': 130, 'ctor:ctor:config:PdiffIndex': 130,
+                     'ctor:ctor:config:Release-apt-ftparchive': 130, 'ctor:ctor:config:Release-dak': 130,
+                     'ctor:ctor:signed': 41, 'ctor:ctor:src-class:mapping:keyword-call': 250,
+                     'ctor:ctor:src-class:mapping:positional-call': 63, 'ctor:ctor:src-class:one-shot:keyword-call':
+                     160, 'ctor:ctor:src-class:one-shot:positional-call': 130,
+                     'ctor:ctor:src-class:re-usable:keyword-call': 100,
+                     'ctor:ctor:src-class:re-usable:positional-call': 90, 'ctor:ctor:src:binaryfile': 33,
+                     'ctor:ctor:src:bytes': 33, 'ctor:ctor:src:bytesio': 33, 'ctor:ctor:src:gen': 33,
+                     'ctor:ctor:src:gen-bytes': 33, 'ctor:ctor:src:gen-nonl': 33, 'ctor:ctor:src:iter-bytes': 33,
+                     'ctor:ctor:src:iter-list': 33, 'ctor:ctor:src:list': 33, 'ctor:ctor:src:list-bytes': 33,
+                     'ctor:ctor:src:list-nonl': 33, 'ctor:ctor:src:str': 33, 'ctor:ctor:src:stringio': 33,
+                     'ctor:ctor:src:textfile': 33, 'ctor:ctor:src:tuple': 33,
+                     'ctor:fields:mapping:structured-field-listed': 140,
+                     'ctor:fields:one-shot:structured-field-listed': 840,
+                     'ctor:fields:re-usable:structured-field-listed': 570, 'ctor:iter:call:fields+kw': 45,
+                     'ctor:iter:call:kw': 45, 'ctor:iter:call:kw+all': 45, 'ctor:iter:call:kw+apt-false': 45,
+                     'ctor:iter:call:kw+apt-requested': 45, 'ctor:iter:call:kw+encoding': 45,
+                     'ctor:iter:call:kw+fields': 45, 'ctor:iter:call:kw+shared': 45, 'ctor:iter:call:kw+strict': 45,
+                     'ctor:iter:call:pos': 45, 'ctor:iter:call:pos+encoding': 45, 'ctor:iter:call:pos+fields': 45,
+                     'ctor:iter:call:pos+fields-kw': 45, 'ctor:iter:call:pos-all': 45,
+                     'ctor:iter:config-src-class:BuildInfo:one-shot': 63,
+                     'ctor:iter:config-src-class:BuildInfo:re-usable': 42,
+                     'ctor:iter:config-src-class:Changes:one-shot': 63,
+                     'ctor:iter:config-src-class:Changes:re-usable': 42, 'ctor:iter:config-src-class:Dsc:one-shot':
+                     63, 'ctor:iter:config-src-class:Dsc:re-usable': 42,
+                     'ctor:iter:config-src-class:PdiffIndex:one-shot': 63,
+                     'ctor:iter:config-src-class:PdiffIndex:re-usable': 42,
+                     'ctor:iter:config-src-class:Release-apt-ftparchive:one-shot': 63,
+                     'ctor:iter:config-src-class:Release-apt-ftparchive:re-usable': 42,
+                     'ctor:iter:config-src-class:Release-dak:one-shot': 63,
+                     'ctor:iter:config-src-class:Release-dak:re-usable': 42, 'ctor:iter:config:BuildInfo': 100,
+                     'ctor:iter:config:Changes': 100, 'ctor:iter:config:Dsc': 100, 'ctor:iter:config:PdiffIndex': 100,
+                     'ctor:iter:config:Release-apt-ftparchive': 100, 'ctor:iter:config:Release-dak': 100,
+                     'ctor:iter:consume:for': 190, 'ctor:iter:consume:for:one-shot': 110,
+                     'ctor:iter:consume:for:re-usable': 78, 'ctor:iter:consume:list': 190,
+                     'ctor:iter:consume:list:one-shot': 110, 'ctor:iter:consume:list:re-usable': 80,
+                     'ctor:iter:consume:next': 200, 'ctor:iter:consume:next:one-shot': 120,
+                     'ctor:iter:consume:next:re-usable': 82, 'ctor:iter:paragraphs:1': 180, 'ctor:iter:paragraphs:2':
+                     270, 'ctor:iter:paragraphs:3': 130, 'ctor:iter:signed': 61,
+                     'ctor:iter:signed:one-shot:keyword-call': 23, 'ctor:iter:src-class:one-shot:keyword-call': 240,
+                     'ctor:iter:src-class:one-shot:positional-call': 130,
+                     'ctor:iter:src-class:re-usable:keyword-call': 160,
+                     'ctor:iter:src-class:re-usable:positional-call': 90, 'ctor:iter:src:binaryfile': 42,
+                     'ctor:iter:src:bytes': 42, 'ctor:iter:src:bytesio': 42, 'ctor:iter:src:gen': 42,
+                     'ctor:iter:src:gen-bytes': 42, 'ctor:iter:src:gen-nonl': 42, 'ctor:iter:src:iter-bytes': 42,
+                     'ctor:iter:src:iter-list': 42, 'ctor:iter:src:list': 42, 'ctor:iter:src:list-bytes': 42,
+                     'ctor:iter:src:list-nonl': 42, 'ctor:iter:src:str': 42, 'ctor:iter:src:stringio': 42,
+                     'ctor:iter:src:textfile': 42, 'ctor:iter:src:tuple': 42, 'ctor:layout:mixed': 1300,
+                     'ctor:layout:mixed:mapping': 200, 'ctor:layout:mixed:one-shot': 710,
+                     'ctor:layout:mixed:re-usable': 440, 'ctor:layout:multi': 4800, 'ctor:layout:multi:mapping': 740,
+                     'ctor:layout:multi:one-shot': 2400, 'ctor:layout:multi:re-usable': 1600, 'ctor:layout:single':
+                     640, 'ctor:layout:single:mapping': 87, 'ctor:layout:single:one-shot': 330,
+                     'ctor:layout:single:re-usable': 210, 'ctor:lead:blank-line': 140, 'ctor:tail:blank': 330,
+                     'ctor:tail:nl': 650, 'ctor:tail:nonl': 320}},
+    'thorough': {
+        'monitors': {'M.ctor': 37000, 'M.ctor.fields': 24000, 'M.ctor.kw': 55000, 'M.ctor.kw.mapping': 14000, 'M.ctor.kw.one-shot': 24000,
+                     'M.ctor.kw.re-usable': 16000, 'M.ctor.map': 18000, 'M.ctor.map.independent': 10000,
+                     'M.ctor.map.source-unchanged': 18000, 'M.ctor.mapping': 18000, 'M.ctor.one-shot': 40000,
+                     'M.ctor.re-usable': 27000, 'M.ctor.respell': 63000, 'M.iter': 47000, 'M.iter.count': 25000},
+        'counters': {'ctor:api:ctor': 38000, 'ctor:api:iter': 25000, 'ctor:case': 63000, 'ctor:close:early': 9900, 'ctor:close:late':
+                     9900, 'ctor:ctor:call:fields+kw': 1800, 'ctor:ctor:call:kw': 5500, 'ctor:ctor:call:kw+all': 5500,
+                     'ctor:ctor:call:kw+encoding': 5500, 'ctor:ctor:call:kw+fields': 5500, 'ctor:ctor:call:kw+strict':
+                     1800, 'ctor:ctor:call:pos': 5500, 'ctor:ctor:call:pos+encoding': 1800,
+                     'ctor:ctor:call:pos+fields': 1800, 'ctor:ctor:call:pos+fields-kw': 1800,
+                     'ctor:ctor:call:pos-all': 1800, 'ctor:ctor:config-src-class:BuildInfo:mapping': 3100,
+                     'ctor:ctor:config-src-class:BuildInfo:one-shot': 1900,
+                     'ctor:ctor:config-src-class:BuildInfo:re-usable': 1300,
+                     'ctor:ctor:config-src-class:Changes:mapping': 3100,
+                     'ctor:ctor:config-src-class:Changes:one-shot': 1900,
+                     'ctor:ctor:config-src-class:Changes:re-usable': 1300, 'ctor:ctor:config-src-class:Dsc:mapping':
+                     3100, 'ctor:ctor:config-src-class:Dsc:one-shot': 1900,
+                     'ctor:ctor:config-src-class:Dsc:re-usable': 1300,
+                     'ctor:ctor:config-src-class:PdiffIndex:mapping': 3100,
+                     'ctor:ctor:config-src-class:PdiffIndex:one-shot': 1900,
+                     'ctor:ctor:config-src-class:PdiffIndex:re-usable': 1300,
+                     'ctor:ctor:config-src-class:Release-apt-ftparchive:mapping': 3100,
+                     'ctor:ctor:config-src-class:Release-apt-ftparchive:one-shot': 1900,
+                     'ctor:ctor:config-src-class:Release-apt-ftparchive:re-usable': 1300,
+                     'ctor:ctor:config-src-class:Release-dak:mapping': 3100,
+                     'ctor:ctor:config-src-class:Release-dak:one-shot': 1900,
+                     'ctor:ctor:config-src-class:Release-dak:re-usable': 1300, 'ctor:ctor:config:BuildInfo': 6400,
+                     'ctor:ctor:config:Changes': 6400, 'ctor:ctor:config:Dsc': 6400, 'ctor:ctor:config:PdiffIndex':
+                     6400, 'ctor:ctor:config:Release-apt-ftparchive': 6400, 'ctor:ctor:config:Release-dak': 6400,
+                     'ctor:ctor:signed': 1900, 'ctor:ctor:signed:one-shot:keyword-call': 620,
+                     'ctor:ctor:signed:one-shot:positional-call': 510, 'ctor:ctor:signed:re-usable:keyword-call': 410,
+                     'ctor:ctor:signed:re-usable:positional-call': 360, 'ctor:ctor:src-class:mapping:keyword-call':
+                     15000, 'ctor:ctor:src-class:mapping:positional-call': 3700,
+                     'ctor:ctor:src-class:one-shot:keyword-call': 6400,
+                     'ctor:ctor:src-class:one-shot:positional-call': 5400,
+                     'ctor:ctor:src-class:re-usable:keyword-call': 4300,
+                     'ctor:ctor:src-class:re-usable:positional-call': 3600, 'ctor:ctor:src:binaryfile': 1300,
+                     'ctor:ctor:src:bytes': 1300, 'ctor:ctor:src:bytesio': 1300, 'ctor:ctor:src:gen': 1300,
+                     'ctor:ctor:src:gen-bytes': 1300, 'ctor:ctor:src:gen-nonl': 1300, 'ctor:ctor:src:iter-bytes':
+                     1300, 'ctor:ctor:src:iter-list': 1300, 'ctor:ctor:src:list': 1300, 'ctor:ctor:src:list-bytes':
+                     1300, 'ctor:ctor:src:list-nonl': 1300, 'ctor:ctor:src:map:abc-mapping': 900,
+                     'ctor:ctor:src:map:chainmap': 900, 'ctor:ctor:src:map:deb822': 900,
+                     'ctor:ctor:src:map:deb822-built': 900, 'ctor:ctor:src:map:deb822-copy': 900,
+                     'ctor:ctor:src:map:deb822-from-bytes': 900, 'ctor:ctor:src:map:deb822-from-dict': 900,
+                     'ctor:ctor:src:map:deb822-from-file': 900, 'ctor:ctor:src:map:deb822-from-iter_paragraphs': 900,
+                     'ctor:ctor:src:map:deb822-from-lines': 900, 'ctor:ctor:src:map:deb822dict': 900,
+                     'ctor:ctor:src:map:deb822dict-built': 900, 'ctor:ctor:src:map:deb822dict-from-dict': 900,
+                     'ctor:ctor:src:map:defaultdict': 900, 'ctor:ctor:src:map:dict': 900,
+                     'ctor:ctor:src:map:mappingproxy': 900, 'ctor:ctor:src:map:mappingproxy-of-deb822': 900,
+                     'ctor:ctor:src:map:mappingproxy-of-ordereddict': 900, 'ctor:ctor:src:map:ordereddict': 900,
+                     'ctor:ctor:src:map:same-class': 900, 'ctor:ctor:src:map:userdict': 900, 'ctor:ctor:src:str':
+                     1300, 'ctor:ctor:src:stringio': 1300, 'ctor:ctor:src:textfile': 1300, 'ctor:ctor:src:tuple':
+                     1300, 'ctor:fields:mapping:structured-field-listed': 9400,
+                     'ctor:fields:one-shot:structured-field-listed': 35000,
+                     'ctor:fields:re-usable:structured-field-listed': 24000, 'ctor:iter:call:fields+kw': 1800,
+                     'ctor:iter:call:kw': 1800, 'ctor:iter:call:kw+all': 1800, 'ctor:iter:call:kw+apt-false': 1800,
+                     'ctor:iter:call:kw+apt-requested': 1800, 'ctor:iter:call:kw+encoding': 1800,
+                     'ctor:iter:call:kw+fields': 1800, 'ctor:iter:call:kw+shared': 1800, 'ctor:iter:call:kw+strict':
+                     1800, 'ctor:iter:call:pos': 1800, 'ctor:iter:call:pos+encoding': 1800,
+                     'ctor:iter:call:pos+fields': 1800, 'ctor:iter:call:pos+fields-kw': 1800,
+                     'ctor:iter:call:pos-all': 1800, 'ctor:iter:config-src-class:BuildInfo:one-shot': 2500,
+                     'ctor:iter:config-src-class:BuildInfo:re-usable': 1600,
+                     'ctor:iter:config-src-class:Changes:one-shot': 2500,
+                     'ctor:iter:config-src-class:Changes:re-usable': 1600, 'ctor:iter:config-src-class:Dsc:one-shot':
+                     2500, 'ctor:iter:config-src-class:Dsc:re-usable': 1600,
+                     'ctor:iter:config-src-class:PdiffIndex:one-shot': 2500,
+                     'ctor:iter:config-src-class:PdiffIndex:re-usable': 1600,
+                     'ctor:iter:config-src-class:Release-apt-ftparchive:one-shot': 2500,
+                     'ctor:iter:config-src-class:Release-apt-ftparchive:re-usable': 1600,
+                     'ctor:iter:config-src-class:Release-dak:one-shot': 2500,
+                     'ctor:iter:config-src-class:Release-dak:re-usable': 1600, 'ctor:iter:config:BuildInfo': 4200,
+                     'ctor:iter:config:Changes': 4200, 'ctor:iter:config:Dsc': 4200, 'ctor:iter:config:PdiffIndex':
+                     4200, 'ctor:iter:config:Release-apt-ftparchive': 4200, 'ctor:iter:config:Release-dak': 4200,
+                     'ctor:iter:consume:for': 8400, 'ctor:iter:consume:for:one-shot': 5100,
+                     'ctor:iter:consume:for:re-usable': 3300, 'ctor:iter:consume:list': 8300,
+                     'ctor:iter:consume:list:one-shot': 5000, 'ctor:iter:consume:list:re-usable': 3300,
+                     'ctor:iter:consume:next': 8400, 'ctor:iter:consume:next:one-shot': 5000,
+                     'ctor:iter:consume:next:re-usable': 3400, 'ctor:iter:paragraphs:1': 8200,
+                     'ctor:iter:paragraphs:2': 11000, 'ctor:iter:paragraphs:3': 5500, 'ctor:iter:signed': 2500,
+                     'ctor:iter:signed:one-shot:keyword-call': 960, 'ctor:iter:signed:one-shot:positional-call': 540,
+                     'ctor:iter:signed:re-usable:keyword-call': 660, 'ctor:iter:signed:re-usable:positional-call':
+                     350, 'ctor:iter:src-class:one-shot:keyword-call': 9700,
+                     'ctor:iter:src-class:one-shot:positional-call': 5400,
+                     'ctor:iter:src-class:re-usable:keyword-call': 6400,
+                     'ctor:iter:src-class:re-usable:positional-call': 3600, 'ctor:iter:src:binaryfile': 1600,
+                     'ctor:iter:src:bytes': 1600, 'ctor:iter:src:bytesio': 1600, 'ctor:iter:src:gen': 1600,
+                     'ctor:iter:src:gen-bytes': 1600, 'ctor:iter:src:gen-nonl': 1600, 'ctor:iter:src:iter-bytes':
+                     1600, 'ctor:iter:src:iter-list': 1600, 'ctor:iter:src:list': 1600, 'ctor:iter:src:list-bytes':
+                     1600, 'ctor:iter:src:list-nonl': 1600, 'ctor:iter:src:str': 1600, 'ctor:iter:src:stringio': 1600,
+                     'ctor:iter:src:textfile': 1600, 'ctor:iter:src:tuple': 1600, 'ctor:layout:mixed': 61000,
+                     'ctor:layout:mixed:mapping': 13000, 'ctor:layout:mixed:one-shot': 28000,
+                     'ctor:layout:mixed:re-usable': 19000, 'ctor:layout:multi': 210000, 'ctor:layout:multi:mapping':
+                     46000, 'ctor:layout:multi:one-shot': 100000, 'ctor:layout:multi:re-usable': 67000,
+                     'ctor:layout:single': 28000, 'ctor:layout:single:mapping': 6000, 'ctor:layout:single:one-shot':
+                     13000, 'ctor:layout:single:re-usable': 8900, 'ctor:lead:blank-line': 7000, 'ctor:tail:blank':
+                     14000, 'ctor:tail:nl': 29000, 'ctor:tail:nonl': 14000}},
+}
+for _tier in ('quick', 'thorough'):
+    FLOORS[_tier]['counters'].update(_CTOR_FLOORS[_tier]['counters'])
+    FLOORS[_tier]['monitors'].update(_CTOR_FLOORS[_tier]['monitors'])
 # MIXED-FLOORS: the enumerated mixed-layout class is deterministic - every structured field of every configuration
 # is parsed MIXED_REPS x {2, 3, 4 records} times (Release: x 2 behaviours); demand half of that per field, so a
 # run that does not drive the mixed layout for SOME field of SOME class is INCONCLUSIVE, not held.
